@@ -375,7 +375,7 @@ PROPS = {
                         "V4_inject.FuncInstrFlag.*", "V4_inject.fn:FuncInstrFlag::add_instr", "V4_inject.fn:Instruction::add_instr",
                         "V4_inject.LocalFunction.*", "V4_inject.fn:LocalFunction::add_instr",
                         "V4_inject.FunctionModifier.*", "V4_inject.fn:FunctionModifier as *"],
-        "glue": ["the iterators' append_tag_at / get_injected_val / add_local forwarders are not under contract (inject, inject_at, add_instr_at, empty_block_alt_at, empty_alternate_at and clear_instr_at of both iterators are, unit V4b)",
+        "glue": ["the iterators' append_tag_at / get_injected_val / add_local forwarders are under contract (unit V4b), as are inject, inject_at, add_instr_at, empty_block_alt_at, empty_alternate_at and clear_instr_at of both iterators",
                  "that has_special_instr == true suffices for resolution is the first `if` of Module::resolve_special_instrumentation (driver: not under contract)"],
         "design_ref": "DESIGN.md §5 C22",
         "level_text": "Every injection entry point under contract either requires the mode to be applicable to the instruction (the code panics otherwise = rejected at the call) or leaves has_special_instr == old || is_special(mode); proved for all instructions, modes and indices.",
@@ -412,7 +412,7 @@ PROPS = {
                         "V5_iter.handle_skips.*", "V5_iter.fn:next_module_with_work", "V5_iter.fn:lemma_next_live",
                         "V4b_iter_inject.fn:ComponentIterator::new", "V4b_iter_inject.get_func_metadata.*", "V4b_iter_inject.fn:Module::get_func_metadata",
                         "V4b_iter_inject.fn:lemma_metadata_members", "V4b_iter_inject.fn:Functions::get"],
-        "glue": ["of the ComponentIterator injection methods, inject / inject_at / set_instrument_mode_at / add_instr_at / empty_block_alt_at / empty_alternate_at / clear_instr_at / append_tag_at / get_injected_val are under contract (same effect predicates as the ModuleIterator ones - `lf_added`, and for set_instrument_mode_at / inject_at the same clause-by-clause frame - on the addressed function of the addressed module; the other functions of that module, the other modules and the cursor untouched; `lf_cleared` - the contract of LocalFunction::clear_instr_at, V4 - for clear_instr_at, `lf_tag_appended` - the contract of LocalFunction::append_instr_tag_at, V20 - for append_tag_at); add_local is compared by reading only",
+        "glue": ["of the ComponentIterator injection methods, inject / inject_at / set_instrument_mode_at / add_instr_at / empty_block_alt_at / empty_alternate_at / clear_instr_at / append_tag_at / get_injected_val are under contract (same effect predicates as the ModuleIterator ones - `lf_added`, and for set_instrument_mode_at / inject_at the same clause-by-clause frame - on the addressed function of the addressed module; the other functions of that module, the other modules and the cursor untouched; `lf_cleared` - the contract of LocalFunction::clear_instr_at, V4 - for clear_instr_at, `lf_tag_appended` - the contract of LocalFunction::append_instr_tag_at, V20 - for append_tag_at); add_local: `added_one_local` - the contract of Functions::add_local, V1 - on the function at the cursor",
                  "ComponentIterator::{new,next,curr_loc,curr_op,reset} are under contract in V4b against the ComponentSubIterator contracts that V5 proves (assumed there in a weaker form: `settled()` = past the last module or on an instruction of module curr_mod, each clause implied by the V5 postcondition of the same function); `new` requires comp.num_modules == comp.modules.len() and parsed modules (ids are positions, recorded sizes are lengths, bodies non-empty) - the invariant parse_comp establishes, not proved here; print_metadata (stdout only) is a stub",
                  "that injections keep `consistent()` (they do not change instruction counts) is not threaded through the injection methods"],
         "design_ref": "DESIGN.md §4 V5, §5 C26",
@@ -420,12 +420,13 @@ PROPS = {
     },
     "C14": {
         "title": "Added locals get fresh indices of the requested type",
-        "units": ["V1_locals", "V11_emit"],
-        "obligations": ["V1_locals.*"],
+        "units": ["V1_locals", "V11_emit", "V4b_iter_inject"],
+        "obligations": ["V1_locals.*", "V4b_iter_inject.ModuleIterator.add_local.*", "V4b_iter_inject.ComponentIterator.add_local.*",
+                        "V4b_iter_inject.fn:ModuleIterator as AddLocal::add_local", "V4b_iter_inject.fn:ComponentIterator as AddLocal::add_local", "V4b_iter_inject.fn:AddLocal::add_local"],
         "kani": [],
         "obligations_extra": V11_CODE,
         "glue": V11_TRUST + ["emission of the locals vector in Module::encode_internal (one loop over body.locals)",
-                 "ModuleIterator / ComponentIterator add_local forwarders (one-line delegations to Functions::add_local)"],
+                 "the ModuleIterator / ComponentIterator add_local forwarders are under contract in V4b (the local is added to the function the cursor is in - of the module the cursor is in - with the index params + locals so far and the requested type; every other function / module and the cursor untouched) against the contract of Functions::add_local, which V1 proves and V4b assumes with the same text; precondition: the iterator points at an instruction of a local function whose run-length local list agrees with its num_locals"],
         "design_ref": "DESIGN.md §4 V1, §5 C14",
     },
     "C27": {
